@@ -11,11 +11,13 @@ import (
 	"go.flow.arcalot.io/engine/internal/verifrt"
 )
 
-// verifRefs lists the plain (required) references in template data.
+// verifRefs lists the plain (required) references in template data (not those under optional / one-of tags).
 func verifRefs(data any) []*verifExpr {
 	switch d := data.(type) {
 	case *verifExpr:
 		return []*verifExpr{d}
+	case *infer.OptionalExpression, *infer.OneOfExpression:
+		return nil
 	case map[any]any:
 		var r []*verifExpr
 		for _, v := range d {
@@ -166,13 +168,7 @@ func verifCheck(t tWorkflow, run *vRun, res *vResult, normInput any, opts vCheck
 	nProd := 0
 	prodID := ""
 	for id, data := range t.outputs {
-		ok := true
-		for _, ref := range verifRefs(data) {
-			if !run.refProduced(ref, 0) {
-				ok = false
-			}
-		}
-		if ok {
+		if run.verifProducible(data) {
 			nProd++
 			prodID = id
 		}
@@ -185,10 +181,7 @@ func verifCheck(t tWorkflow, run *vRun, res *vResult, normInput any, opts vCheck
 			for _, ref := range verifRefs(data) {
 				verifrt.Assert(run.refProduced(ref, 0), "the returned output's dependencies were all produced")
 			}
-			want, ok := run.verifEval(data, normInput)
-			if ok {
-				verifSame(want, res.data, "the returned data is the output's expressions evaluated over the produced step outputs")
-			}
+			run.verifMatch(data, res.data, true, 0, normInput, "the returned data is the output's expressions evaluated over the produced step outputs")
 		}
 	} else {
 		verifrt.Reach("error")
@@ -222,15 +215,9 @@ func verifCheck(t tWorkflow, run *vRun, res *vResult, normInput any, opts vCheck
 			for _, ref := range verifRefs(data) {
 				verifrt.Assert(run.refProduced(ref, h.seq), "a stage receives its input only after every value it refers to was produced")
 			}
-			want, ok := run.verifEval(data, normInput)
-			if ok && f != "wait_for" {
+			if f != "wait_for" {
 				got, present := h.input[f]
-				if want != nil || present {
-					verifrt.Assert(present, "the stage input contains the field")
-					if present {
-						verifSame(want, got, "a stage receives exactly the values its expressions evaluate to over the produced outputs")
-					}
-				}
+				run.verifMatch(data, got, present, h.seq, normInput, "a stage receives exactly the values its expressions evaluate to over the produced outputs")
 			}
 		}
 	}
@@ -258,4 +245,138 @@ func verifCheck(t tWorkflow, run *vRun, res *vResult, normInput any, opts vCheck
 type vCheckOpts struct {
 	prompt    bool // assert promptness when no output is producible
 	cancelled bool
+}
+
+// ---------------------------------------------------------------------------
+// tagged values (C15)
+
+// verifTagged lists the optional and one-of expressions in template data.
+func verifTagged(data any) (opts []*infer.OptionalExpression, oneofs []*infer.OneOfExpression) {
+	switch d := data.(type) {
+	case *infer.OptionalExpression:
+		opts = append(opts, d)
+	case *infer.OneOfExpression:
+		oneofs = append(oneofs, d)
+	case map[any]any:
+		for _, v := range d {
+			o, f := verifTagged(v)
+			opts, oneofs = append(opts, o...), append(oneofs, f...)
+		}
+	case []any:
+		for _, v := range d {
+			o, f := verifTagged(v)
+			opts, oneofs = append(opts, o...), append(oneofs, f...)
+		}
+	}
+	return
+}
+
+// sourceFinished: the producer of a reference has produced it or has finished without it, before seq.
+func (r *vRun) sourceFinished(e *verifExpr, before int) bool {
+	if r.refProduced(e, before) {
+		return true
+	}
+	if _, isStep := r.refKey(e); !isStep {
+		return true
+	}
+	s := r.steps[e.path[1].(string)]
+	return s != nil && s.finishedSeq > 0 && (before == 0 || s.finishedSeq < before)
+}
+
+func (r *vRun) optionAvailable(opt any, before int) bool {
+	for _, ref := range verifRefs(opt) {
+		if !r.refProduced(ref, before) {
+			return false
+		}
+	}
+	return true
+}
+
+// verifMatch asserts that got is what the template data means over the outputs produced before seq.
+func (r *vRun) verifMatch(data any, got any, present bool, before int, input any, label string) {
+	switch d := data.(type) {
+	case *infer.OptionalExpression:
+		ref := d.Expr.(*verifExpr)
+		produced := r.refProduced(ref, before)
+		if d.WaitForCompletion {
+			verifrt.Assert(r.sourceFinished(ref, before), "a wait-optional field is evaluated only after its source has finished one way or the other")
+			verifrt.Assert(present == produced, "a wait-optional field is present exactly when its source was produced")
+		}
+		if present {
+			verifrt.Reach("optional-present")
+			verifrt.Assert(produced, "a present optional field has a produced source")
+			if produced {
+				want, _ := r.verifEval(ref, input)
+				verifSame(want, got, "a present optional field carries its source's value")
+			}
+		} else {
+			verifrt.Reach("optional-absent")
+		}
+	case *infer.OneOfExpression:
+		verifrt.Assert(present, "a one-of value is present")
+		m, ok := got.(map[any]any)
+		verifrt.Assert(ok, "a one-of value is an object")
+		if !ok {
+			return
+		}
+		disc, ok := m[d.Discriminator].(string)
+		verifrt.Assert(ok, "a one-of value carries its discriminator")
+		opt, known := d.Options[disc]
+		verifrt.Assert(known, "the discriminator names one of the alternatives")
+		if !known {
+			return
+		}
+		verifrt.Reach("oneof-" + disc)
+		verifrt.Assert(r.optionAvailable(opt, before), "the selected alternative's sources were produced")
+		want, evalOK := r.verifEval(opt, input)
+		if evalOK {
+			wm, isMap := want.(map[any]any)
+			if isMap {
+				wm[d.Discriminator] = disc
+				verifSame(wm, got, "a one-of value is the selected alternative's data plus the discriminator")
+			}
+		}
+	case map[any]any:
+		gm, ok := got.(map[any]any)
+		verifrt.Assert(present && ok, label+" (object expected)")
+		if !ok {
+			return
+		}
+		for k, v := range d {
+			g, has := gm[k]
+			r.verifMatch(v, g, has, before, input, label)
+		}
+		for k := range gm {
+			_, has := d[k]
+			verifrt.Assert(has, label+" (no foreign key)")
+		}
+	default:
+		verifrt.Assert(present, label+" (value present)")
+		want, ok := r.verifEval(data, input)
+		if ok && present {
+			verifSame(want, got, label)
+		}
+	}
+}
+
+// verifProducible: could the declared output be built from what was produced (by the end of the run)?
+func (r *vRun) verifProducible(data any) bool {
+	for _, ref := range verifRefs(data) {
+		if !r.refProduced(ref, 0) {
+			return false
+		}
+	}
+	_, oneofs := verifTagged(data)
+	for _, o := range oneofs {
+		any := false
+		for _, opt := range o.Options {
+			if r.optionAvailable(opt, 0) {
+				any = true
+			}
+		}
+		if !any {
+			return false
+		}
+	}
+	return true
 }
